@@ -165,8 +165,8 @@ def setup_event(sc):
                 table=[dict(t=r["t"], mult=r["mult"], id=r["id"], x=_q(r["xf"]), y=_q(r["yf"]), z=_q(r["zf"])) for r in sc["rows"]],
                 grid=dict(i0=i0, i1=i1, j0=j0, j1=j1, dt=sc["dt"], dx=int(sc["dx"]), dy=int(sc["dy"]),
                           mask=[row[i0:i1] for row in M[j0:j1]]),
-                kill=sc["kill"], freeze=sc.get("freeze", []), out=dict(ops=sc["ops"], numrec=sc["numrec"], sparse=sc["layout"] == "sparse", pvars=sc["pvars"]),
-                warm=bool(sc.get("warm")), vert=bool(sc.get("vert")), token=sc.get("token", 0))
+                kill=sc["kill"], freeze=sc.get("freeze", []), killfarm=sc.get("killfarm", []), out=dict(ops=sc["ops"], numrec=sc["numrec"], sparse=sc["layout"] == "sparse", pvars=sc["pvars"]),
+                warm=bool(sc.get("warm")), vert=bool(sc.get("vert") or sc.get("wfield")), token=sc.get("token", 0))
 
 
 def write_release(sc, path):
@@ -195,7 +195,8 @@ def config(sc, work, plug=PLUG):
         tracker=dict(module=plug % "tracker", advection=sc["adv"]),
         release=dict(module=plug % "release", release_file=os.path.join(work, "r.rls"), continuous=sc["cont"]),
         ibm=dict(module=plug % "ibm", kill={int(s): [p for s2, p in sc["kill"] if s2 == s] for s, _ in sc["kill"]},
-                 freeze={int(s): [p for s2, p in sc.get("freeze", []) if s2 == s] for s, _ in sc.get("freeze", [])}),
+                 freeze={int(s): [p for s2, p in sc.get("freeze", []) if s2 == s] for s, _ in sc.get("freeze", [])},
+                 killfarm={int(s): [p for s2, p in sc.get("killfarm", []) if s2 == s] for s, _ in sc.get("killfarm", [])}),
         output=dict(module=plug % "output", filename=os.path.join(work, "out.nc"), output_period=sc["dt"] * sc["ops"],
                     numrec=sc["numrec"], layout=sc["layout"], instance_variables=out_iv),
     )
@@ -209,6 +210,11 @@ def config(sc, work, plug=PLUG):
         conf["grid"]["subgrid"] = list(sc["subgrid"])
     if sc["hasscal"]:
         conf["forcing"]["extra_forcing"] = ["temp"]
+    if sc.get("wfield"):
+        conf["forcing"]["extra_forcing"] = conf["forcing"].get("extra_forcing", []) + ["w"]
+        conf["state"]["instance_variables"]["w"] = "float"
+        conf["state"]["default_values"]["w"] = 0.0
+        conf["tracker"]["vertical_advection"] = True
     if sc["pvars"]:
         conf["output"]["particle_variables"] = dict(
             release_time=dict(encoding=dict(datatype="f8"), attributes=dict(long_name="particle release time", units="seconds since reference_time")),
@@ -292,6 +298,10 @@ def _rec(t, arr, sl, ivars):
     r = dict(time=t, pid=ii(arr["pid"][sl]), x=qq(arr["X"][sl]), y=qq(arr["Y"][sl]), z=qq(arr["Z"][sl]))
     for v in ivars:
         r[v] = ii(arr[v][sl]) if v in arr else []
+    # bit-for-bit clauses: a digest of the raw float64 bytes of (X, Y, Z[, temp]) per particle instance
+    import hashlib
+    cols = [np.asarray(arr[v][sl], dtype="<f8") for v in ("X", "Y", "Z") + (("temp",) if "temp" in arr else ())]
+    r["hx"] = [hashlib.sha256(b"".join(c[k].tobytes() for c in cols)).hexdigest()[:12] for k in range(len(r["pid"]))]
     return r
 
 
